@@ -37,9 +37,16 @@ let parse_sig comms s =
 let popcount (bits : int list) = let c = ref 0 in for i = 0 to 511 do if bit_at bits i then incr c done; !c
 
 (* conv: the model's converter applied to the wire object (Ok u for a hand-built GenericUpdate) *)
-type pstep = { force : bool; mode : string; conv : update res; now : n; fork : byte list; nbits : int }
+(* boot: a bootstrap() step on the same client: (checkpoint, data, now, max_age, strict) *)
+type pstep = { force : bool; mode : string; conv : update res; now : n; fork : byte list; nbits : int;
+               boot : (byte list * bootstrap_data * n * n * bool) option }
 let fork_of = function 'a' -> WAltair | 'c' -> WCapella | 'd' -> WDeneb | 'e' -> WElectra | _ -> WOther
 let parse_step comms s = match split ',' s with
+  | ["B"; now; checkpoint; hdr; exec_root; exec_br_root; comm; branch; max_age; strict] ->
+    let bd = { b_beacon = parse_hdr hdr; b_exec_root = hexb exec_root; b_exec_branch_root = hexb exec_br_root;
+               b_committee = comms.(int_of_string comm); b_branch = (match parse_branch branch with Some l -> l | None -> []) } in
+    { force = false; mode = "B"; conv = Err (n_ 0); now = n_ (int_of_string now); fork = []; nbits = 512;
+      boot = Some (hexb checkpoint, bd, n_ (int_of_string now), n_ (int_of_string max_age), strict = "1") }
   | [mode; now; fork; att; nx; nbr; fin; fbr; bits; sg; sigslot] ->
     let u = { u_attested = parse_hdr att;
               u_next = (if nx = "-" then None else Some comms.(int_of_string nx)); u_next_branch = parse_branch nbr;
@@ -54,7 +61,7 @@ let parse_step comms s = match split ',' s with
       | 'O', None, None, None, None -> from_light_client_optimistic_update wf u.u_attested u.u_bits u.u_sig u.u_sigslot
       | 'G', _, _, _, _ -> Ok u
       | _ -> failwith "wire step whose fields do not fit its container" in
-    { force = (mode.[0] <> m); mode; conv; now = n_ (int_of_string now); fork = hexb fork; nbits = popcount (Util.bytes_of_hex bits) }
+    { force = (mode.[0] <> m); mode; conv; now = n_ (int_of_string now); fork = hexb fork; nbits = popcount (Util.bytes_of_hex bits); boot = None }
   | _ -> failwith "step"
 
 (* which of the four options a converted update carries, and the branch lengths *)
@@ -132,6 +139,21 @@ let hist_monitors (steps : pstep list) (truths : string list) (mres : string lis
          let res, shape, dgs = match split '/' ob with
            | [a; b; c] -> a, b, c
            | _ -> ob, "", "" in
+         if st.boot <> None then begin
+           (* C12_rebootstrap_forgets: after a successful bootstrap() the store IS the bootstrap store, whatever came before *)
+           (match st.boot, parse_digest dgs with
+            | Some (_, bd, _, _, _), Some d ->
+              if res = "panic" then add "lightclient-panics" where
+              else if starts res "err" && t = "-" then add "bootstrap-rejected-valid" (where ^ " " ^ res)
+              else if res = "ok" then begin
+                let slot = int_n bd.b_beacon.h_slot in
+                if d.next <> "-" then add "rebootstrap-keeps-stale-next-committee" (where ^ " next=" ^ String.sub d.next 0 (min 8 (String.length d.next)));
+                if d.fslot <> slot || d.oslot <> slot || d.froot <> d.oroot || d.cur <> bhex bd.b_committee.c_root || d.pmax <> 0 || d.cmax <> 0 then
+                  add "rebootstrap-keeps-stale-state" where
+              end;
+              prev := Some d
+            | _ -> add "lightclient-panics" (where ^ " unreadable digest"))
+         end else begin
          (match expected_shape st.mode with
           | Some e when shape <> e -> add "wire-converter-drops-or-adds-field" (Printf.sprintf "%s converter returned %s, a wire %s carries %s" where shape st.mode e)
           | _ -> ());
@@ -167,7 +189,8 @@ let hist_monitors (steps : pstep list) (truths : string list) (mres : string lis
             if starts res "err" && not st.force && (d <> p) then add "store-changed-by-rejected-update" where;
             prev := Some d
           | _, None -> add "lightclient-panics" (where ^ " unreadable digest")
-          | None, _ -> ()))
+          | None, _ -> ())
+         end)
          rest
      end);
   List.rev !fails
@@ -188,6 +211,13 @@ let handle fields impl : string option * string list =
     let s = ref s0 in
     let mres = ref [] in
     let obs = List.map (fun st ->
+      match st.boot with
+      | Some (cp, bd, now, max_age, strict) ->
+        let res = (match bootstrap cp bd now max_age strict with
+          | Ok s' -> s := s'; "ok" | Err e -> show_err e | Panic -> "panic") in
+        mres := res :: !mres;
+        res ^ "/boot/" ^ digest !s
+      | None ->
       let r = verify_wire !s st.conv st.now genesis st.fork in
       let res = ref (match r with Ok _ -> "ok" | Err e -> show_err e | Panic -> "panic") in
       if !res = "ok" || (st.force && !res <> "panic") then begin
